@@ -81,6 +81,7 @@ def materialise(plan, opt, rng, work, fmt="json"):
     order = [a for a in plan["args"] if a["flag"] == "m"] + [a for a in plan["args"] if a["flag"] == "l"]
     contents = {}
     first = None
+    yaml11 = fmt == "yaml" and len(plan["args"]) >= 2 and not any(a.get("share") for a in plan["args"]) and rng.random() < 0.6
     for i, a in enumerate(plan["args"], 1):
         fn = "f%d.%s" % (i, fmt)
         path = os.path.join(work, fn)
@@ -185,6 +186,12 @@ def materialise(plan, opt, rng, work, fmt="json"):
                     f.write("{1: x, sid: %d}\n" % a["ids"][0])
                 elif fmt == "json":
                     json.dump(data, f)
+                elif yaml11 and i == 1 and kind in ("list", "object", "lookup"):
+                    f.write("%YAML 1.1\n---\n" + json.dumps(data) + "\n")      # a directive concerns its own document only
+                elif yaml11 and i > 1 and kind == "object":
+                    # plain scalars that YAML 1.2 (the loader's default) reads as strings and YAML 1.1 as booleans
+                    data["name"] = rng.choice(["yes", "no", "on", "off"])
+                    f.write("".join("%s: %s\n" % (json.dumps(k), v if k == "name" else json.dumps(v)) for k, v in data.items()))
                 else:
                     f.write(json.dumps(data))      # JSON is YAML
         if i == 1:
